@@ -98,8 +98,8 @@ func catalogue(thorough bool) []colType {
 	ints := func(vs ...int64) []driver.Value {
 		var out []driver.Value
 		for _, v := range vs {
-			out = append(out, v)                     // binary protocol
-			out = append(out, b(fmt.Sprint(v)))      // text protocol
+			out = append(out, v)                // binary protocol
+			out = append(out, b(fmt.Sprint(v))) // text protocol
 		}
 		return out
 	}
@@ -124,7 +124,7 @@ func catalogue(thorough bool) []colType {
 		{"SMALLINT", ints(-32768, 0, 32767, 65535)},
 		{"MEDIUMINT", ints(-8388608, 0, 8388607)},
 		{"INT", ints(math.MinInt32, -1, 0, 1, math.MaxInt32, math.MaxUint32)},
-		{"BIGINT", append(ints(math.MinInt64, -1, 0, 1, math.MaxInt64, 1<<53-1, 1<<53, 1<<53+1, -(1<<53 + 1), 1234567890123456789), uint64(math.MaxUint64), uint64(1<<63))},
+		{"BIGINT", append(ints(math.MinInt64, -1, 0, 1, math.MaxInt64, 1<<53-1, 1<<53, 1<<53+1, -(1<<53+1), 1234567890123456789), uint64(math.MaxUint64), uint64(1<<63))},
 		{"FLOAT", []driver.Value{float32(0), float32(1.5), float32(-1.5), float32(0.1), float32(math.MaxFloat32), float32(math.SmallestNonzeroFloat32), b("0.1"), b("3.4e38")}},
 		{"DOUBLE", []driver.Value{float64(0), 0.1, -1e308, math.MaxFloat64, math.SmallestNonzeroFloat64, float64(1<<53 + 2), b("0.1"), b("1e-7")}},
 		{"DECIMAL", []driver.Value{b("0"), b("0.00"), b("123.45"), b("-99999999999999999999.99"), b("0.1"), b("12345678901234567890")}},
@@ -349,6 +349,7 @@ func Run(r *rep.Run) {
 	r.Count("scanner_rejected_values", int64(notProducible))
 	r.Count("scanned_values", int64(len(vals)))
 
+	var readCfg *undo.Config // when set: the configuration in force when the rollback reads the log (changed since phase one wrote it)
 	flushDecode := func(ser, comp string, sqlType types.SQLType, before, after *types.RecordImage) (dec *undo.BranchUndoLog, ctxb, info []byte, errs string) {
 		undo.UndoConfig = undo.Config{LogSerialization: ser, CompressConfig: undo.CompressConfig{Enable: true, Type: comp, Threshold: "0k"}}
 		tc := &types.TransactionContext{XID: "10.0.0.1:8091:4611686018427387905", BranchID: 1<<62 + 7, RoundImages: &types.RoundRecordImage{}}
@@ -372,6 +373,9 @@ func Run(r *rep.Run) {
 		a := cc.args[0]
 		ctxb, _ = a[2].([]byte)
 		info, _ = a[3].([]byte)
+		if readCfg != nil {
+			undo.UndoConfig = *readCfg
+		}
 		if p := catch(func() { dec, err = base.VerifDecode(ctxb, info) }); p != "" {
 			return nil, ctxb, info, "decode " + p
 		}
@@ -481,6 +485,46 @@ func Run(r *rep.Run) {
 						}
 						if d := compareImage("after", after, l.AfterImage); d != "" {
 							r.Violate(fmt.Sprintf("struct/%s/after", ser), "rows, key flags, types and values survive", cs, d)
+						}
+					}
+				}
+			}
+		}
+	}
+
+	// 2b. the configuration changes between phase one and the rollback (restart with another setting, another instance): the
+	// context stored with the log - not the current configuration - says how to read it
+	{
+		allComps := []string{"None", "Gzip", "Zip", "Bzip2", "Lz4", "Deflate", "Zstd"}
+		row := types.RowImage{Columns: []types.ColumnImage{idCol(1), {ColumnName: "c_varchar", ColumnType: types.JDBCTypeVarchar, Value: strings.Repeat("payload-", 40)}}}
+		for _, serW := range serializers {
+			for _, compW := range allComps {
+				for _, serR := range serializers {
+					for _, compR := range allComps {
+						if serW == serR && compW == compR {
+							continue
+						}
+						if !thorough && serW != serR && compW != compR {
+							continue // quick: change one setting at a time
+						}
+						cfg := undo.Config{LogSerialization: serR, CompressConfig: undo.CompressConfig{Enable: compR != "None", Type: compR, Threshold: "0k"}}
+						readCfg = &cfg
+						before, after := mkImage(types.SQLTypeUpdate, []types.RowImage{row}), mkImage(types.SQLTypeUpdate, []types.RowImage{row})
+						dec, ctxb, _, errs := flushDecode(serW, compW, types.SQLTypeUpdate, before, after)
+						readCfg = nil
+						r.Eval(true)
+						r.Count("config_change_cases", 1)
+						cs := caseDesc{Serializer: serW + "->" + serR, Compress: compW + "->" + compR, SQLType: "update", Rows: 1}
+						if errs != "" {
+							r.Violate(fmt.Sprintf("config-change/%s/%s/%s", serW, compClass(compW), errClass(errs)), "what phase one writes, rollback can read (context picks decoder and decompressor)", cs, errs+" context="+string(ctxb))
+							continue
+						}
+						if len(dec.Logs) != 1 {
+							r.Violate("config-change/"+serW+"/logs", "what phase one writes, rollback can read", cs, fmt.Sprintf("%d logs", len(dec.Logs)))
+							continue
+						}
+						if d := compareImage("before", before, dec.Logs[0].BeforeImage); d != "" {
+							r.Violate("config-change/"+serW+"/before", "what phase one writes, rollback can read", cs, d)
 						}
 					}
 				}
